@@ -17,6 +17,7 @@ import (
 	"github.com/tikv/pd/server"
 	"github.com/tikv/pd/server/api"
 	"github.com/tikv/pd/server/config"
+	"github.com/tikv/pd/server/join"
 	"go.etcd.io/etcd/embed"
 	"go.uber.org/zap"
 
@@ -192,4 +193,48 @@ func StartMembers(n int) ([]*Srv, error) {
 		}
 		time.Sleep(20 * time.Millisecond)
 	}
+}
+
+// JoinMember starts one more real server that joins the running cluster of `existing` (config item `join`), and waits until it
+// serves its HTTP API.
+func JoinMember(existing *Srv, name string) (*Srv, error) {
+	log.ReplaceGlobals(zap.NewNop(), nil)
+	cfg := &config.Config{
+		Name:            name,
+		ClientUrls:      tempurl.Alloc(),
+		PeerUrls:        tempurl.Alloc(),
+		LeaderLease:     3,
+		TSOSaveInterval: typeutil.NewDuration(200 * time.Millisecond),
+		Join:            existing.Cfg.AdvertiseClientUrls,
+	}
+	cfg.AdvertiseClientUrls = cfg.ClientUrls
+	cfg.AdvertisePeerUrls = cfg.PeerUrls
+	cfg.DataDir, _ = os.MkdirTemp("", "verif_pd")
+	cfg.DisableStrictReconfigCheck = true
+	cfg.TickInterval = typeutil.NewDuration(100 * time.Millisecond)
+	cfg.ElectionInterval = typeutil.NewDuration(3 * time.Second)
+	cfg.LeaderPriorityCheckInterval = typeutil.NewDuration(100 * time.Millisecond)
+	cfg.Log.Level = "fatal"
+	cfg.Log.File.Filename = "/dev/null"
+	if err := cfg.SetupLogger(); err != nil {
+		return nil, err
+	}
+	if err := cfg.Adjust(nil, false); err != nil {
+		return nil, err
+	}
+	if err := join.PrepareJoinCluster(cfg); err != nil {
+		return nil, err
+	}
+	log.ReplaceGlobals(zap.NewNop(), nil)
+	ctx, cancel := context.WithCancel(context.Background())
+	s, err := server.CreateServer(ctx, cfg, api.NewHandler)
+	if err == nil {
+		err = s.Run()
+	}
+	if err != nil {
+		cancel()
+		return nil, err
+	}
+	log.ReplaceGlobals(zap.NewNop(), nil)
+	return &Srv{S: s, Cfg: cfg, cancel: cancel}, nil
 }
